@@ -222,6 +222,11 @@ func (m *maxInflightWrapper) SetLimit(acquireResult *AcquireResult) bool {
 		if limit > m.max {
 			limit = m.max
 		}
+		// the limiter server answered, so it is available again: the next
+		// error has to fall back to the local limit again
+		if atomic.LoadUint32(&m.serverUnavailable) == 1 {
+			atomic.StoreUint32(&m.serverUnavailable, 0)
+		}
 		atomic.StoreInt32(&m.overLimited, 1)
 		atomic.StoreInt32(&m.acquiredMaxInflight, limit)
 		m.FlowControl.Resize(uint32(limit), 0)
